@@ -553,7 +553,7 @@ def aligned_cases(draw):
 
 
 def checks(tier):
-    n = {"quick": (3000, 3000, 400, 500, 1200), "thorough": (60000, 60000, 4000, 6000, 24000)}.get(tier, (10, 10, 10, 10, 10))
+    n = {"quick": (3000, 3000, 400, 500, 1200), "thorough": (30000, 30000, 4000, 5000, 12000)}.get(tier, (10, 10, 10, 10, 10))
     return [
         Check("attr_view", fn_attr, strategy=attr_cases(), examples=n[0]),
         Check("mask_view", fn_mask, strategy=mask_cases(), examples=n[1]),
